@@ -53,6 +53,28 @@ def struct_methods(repo: Repo, ci: ClassInfo) -> Dict[str, Tuple[str, int, Optio
     return out
 
 
+def raw_write_methods(repo: Repo, ci: ClassInfo) -> List[str]:
+    """Public methods of a writer helper whose whole effect is `self.<stream>.write(<the parameter>)`: the bytes go out as given."""
+    from . import inline
+    out = []
+    names = tuple(n for n in ci.methods if not n.startswith("__"))
+    for name, fn in ci.methods.items():
+        if name.startswith("_"):
+            continue
+        try:
+            f2 = inline.normalize(repo, ci, fn, also=names)
+        except Exception:
+            continue
+        params = [a.arg for a in f2.args.args if a.arg != "self"]
+        body = [st for st in stmts_of(f2) if not (isinstance(st, ast.Expr) and isinstance(st.value, ast.Constant)) and not isinstance(st, ast.Pass)]
+        if len(params) == 1 and len(body) == 1 and isinstance(body[0], ast.Expr) and isinstance(body[0].value, ast.Call):
+            c = body[0].value
+            if isinstance(c.func, ast.Attribute) and c.func.attr == "write" and norm(c.func.value).startswith("self.") and len(c.args) == 1 \
+                    and isinstance(c.args[0], ast.Name) and c.args[0].id == params[0]:
+                out.append(name)
+    return out
+
+
 @dataclass
 class Slot:
     kind: str                 # int | char | bytes | raw
@@ -88,9 +110,32 @@ def parse_struct_comment(repo: Repo, ci: ClassInfo, line: str) -> Optional[Tuple
 
 
 def preceding_comment(repo: Repo, ci: ClassInfo, node: ast.AST) -> Optional[Tuple[str, str, int, Optional[bool]]]:
+    got = _comment_at(repo, ci, node)
+    if got is None and isinstance(node, ast.Call):
+        # a call assembled from a table / generator of fields: the declaration comment sits with the field's value
+        for a in node.args[:1]:
+            for sub in ast.walk(a):
+                if hasattr(sub, "_src_lineno") and getattr(sub, "_src_lineno") != getattr(node, "_src_lineno", None):
+                    got = _comment_at(repo, ci, sub)
+                    break
+            if got is not None:
+                break
+    return got
+
+
+def _comment_at(repo: Repo, ci: ClassInfo, node: ast.AST) -> Optional[Tuple[str, str, int, Optional[bool]]]:
     if getattr(node, "_synthetic", False):
         return None             # produced by inlining / unrolling: the comment above the original line describes something else
     lines = ci.file.text.splitlines()
+    # a trailing comment on the statement's own line:  w.uint32(x)  # uint32_t unused1;
+    j = getattr(node, "_src_lineno", getattr(node, "lineno", 0)) - 1
+    if 0 <= j < len(lines) and "#" in lines[j] and not lines[j].strip().startswith("#"):
+        tail = lines[j][lines[j].index("#"):]
+        m = re.match(r"^(#\s*\w+\s+\w+\s*(?:\[[^\]]+\])?\s*;)", tail)
+        if m:
+            got = parse_struct_comment(repo, ci, m.group(1))
+            if got is not None:
+                return got
     i = getattr(node, "_src_lineno", node.lineno) - 2
     while i >= 0 and lines[i].strip() == "":
         i -= 1
@@ -104,6 +149,7 @@ def writer_slots(repo: Repo, ci: ClassInfo, fn: ast.FunctionDef, helper: ClassIn
     from . import inline
     fn = inline.normalize(repo, ci, fn)
     meths = struct_methods(repo, helper)
+    raws = raw_write_methods(repo, helper)
     wvar = fvar = None
     for n in walk_no_nested(fn):
         if isinstance(n, ast.Assign) and isinstance(n.value, ast.Call) and len(n.targets) == 1 and isinstance(n.targets[0], ast.Name):
@@ -129,6 +175,13 @@ def writer_slots(repo: Repo, ci: ClassInfo, fn: ast.FunctionDef, helper: ClassIn
             elif m in meths:
                 fmt, wdt, sg = meths[m]
                 slots.append(Slot("int", wdt, sg, norm(c.args[0]) if c.args else "", c, preceding_comment(repo, ci, c), method=m))
+            elif m in raws and c.args:
+                try:
+                    iv = length_of(c.args[0])
+                except Unknown:
+                    iv = None
+                wdt = iv[0] if iv and iv[0] == iv[1] else None
+                slots.append(Slot("raw", wdt, None, norm(c.args[0]), c, preceding_comment(repo, ci, c), method="write", width_iv=iv))
             else:
                 slots.append(Slot("unknown", None, None, norm(c), c, preceding_comment(repo, ci, c), method=m))
         elif fvar is not None and recv == fvar and c.func.attr == "write" and c.args:
